@@ -100,8 +100,9 @@ namespace GeographicLib {
     // Return latitude band number [-10, 10) for the given latitude (degrees).
     // The bands are reckoned in include their southern edges.
     static int LatitudeBand(real lat) {
-      using std::floor;
-      int ilat = int(floor(lat));
+      using std::floor; using std::fmax; using std::fmin;
+      // Clamp before converting to int (lat may be infinite)
+      int ilat = int(floor(fmax(real(-Math::qd), fmin(real(Math::qd), lat))));
       return (std::max)(-10, (std::min)(9, (ilat + 80)/8 - 10));
     }
     // Return approximate latitude band number [-10, 10) for the given northing
